@@ -56,8 +56,19 @@ class DecT(TypeGen):
 
 
 class StrT(TypeGen):
+    """Arbitrary text.  caseless=True: str.upper() is the identity on it - the contract must confine the text (requires)
+    to characters upper() leaves unchanged (digits, punctuation, capital ASCII letters); recorded as an assumption."""
+
+    def __init__(self, caseless=False):
+        self.caseless = caseless
+
     def make(self, ctx, name):
-        return SStr(tm.var(name, tm.STR))
+        v = tm.var(name, tm.STR)
+        if self.caseless:
+            ctx.ghost.setdefault('caseless', set()).add(v)
+            ctx.ghost.setdefault('assumptions', set()).add(
+                'upper() is the identity on %s (text confined by the precondition to characters without a lower-case form)' % name)
+        return SStr(v)
 
 
 class BoolT(TypeGen):
